@@ -3,6 +3,7 @@
 -/
 import ErgoProofs.Lemmas.PathThm
 import ErgoProofs.Lemmas.ReachInv
+import ErgoProofs.Lemmas.PropsAux
 namespace Ergo
 
 /-- Go's Clean puts every surviving ".." in front: a cleaned relative path is k × ".." followed by plain names -/
@@ -24,6 +25,21 @@ theorem C20_escape_refused (fs : Path.P → Path.Kind) (repo rel : Path.P)
          (Path.splitSlash (Path.clean rel)).head? = some Path.ergoName) :
     ∃ e, Path.validateResultPath fs repo rel = .error e :=
   Path.validate_rejects_escape fs repo rel h
+
+/-- a result can be attached only to a live task (not an epic, not a pruned or unknown id), with a one-line summary of at
+    most 120 bytes -/
+theorem C20_live_task_only (g : Graph) (id : Id) (r : SetReq) (agent : String) (po : PathOutcome) (now : Time) (w : Write)
+    (s p : String) (hr : r.resultPath = some p ∧ r.resultSummary = some s)
+    (h : secUpdate g id r agent po now = .ok w) :
+    g.tombed id = false ∧ ∃ t, g.find? id = some t ∧ t.isEpic = false ∧ resultSummaryOk s = true ∧ ∃ c sha m gi, po = .ok c sha m gi :=
+  live_task_only g id r agent po now w s p hr h
+
+/-- results accumulate newest first and later events never drop, duplicate, reorder or alter them: replaying more events
+    only prepends new results of that task (as long as it is not pruned) -/
+theorem C20_accumulate (g : Graph) (e : Event) (g' : Graph) (h : applyEvent g e = .ok g') (t : Task) (ht : g.find? t.id = some t)
+    (hwf : WF g) :
+    g'.find? t.id = none ∨ ∃ t', g'.find? t.id = some t' ∧ ∃ new, t'.results = new ++ t.results ∧ new.length ≤ 1 :=
+  applyEvent_resultsKept g e g' h t ht hwf
 
 /-- compaction keeps every result, in order, with its evidence fields -/
 theorem C20_compact_keeps_results (log : List Event) (h : ReachOK log) :
